@@ -797,10 +797,68 @@ fn parse_time_output(w: &mut Worker) {
     let _ = std::fs::remove_dir_all(&dir);
 }
 
+/// An error raised in included code names the file the failing line is in, and its line there, however the
+/// code got to run: a function of one included file that calls a function of another one, called as a
+/// plain line, for its value, as the condition of if / elseif / while, under not; and a function whose
+/// body holds an include directive.
+fn errors_name_their_file(w: &mut Worker) {
+    let top: PathBuf = w.scratch.join("c14-errfile");
+    let forms: [(&str, &str); 6] = [
+        ("plain", "is_ready"),
+        ("assigned", "r = is_ready"),
+        ("if", "if is_ready\nx = set 1\nend"),
+        ("elseif", "if false\nx = set 0\nelseif is_ready\nx = set 1\nend"),
+        ("while", "while is_ready\ngoto :out\nend\n:out x = set 1"),
+        ("not", "n = not is_ready"),
+    ];
+    for (fname, call) in forms {
+        for layout in ["two-files", "directive-in-body"] {
+            if !w.take() {
+                continue;
+            }
+            let cj = json!({"kind": "errors-name-their-file", "form": fname, "layout": layout});
+            w.begin(|| cj.clone());
+            w.add_transitions(1);
+            let _ = std::fs::remove_dir_all(&top);
+            let _ = std::fs::create_dir_all(top.join("lib/io"));
+            let (failing_file, failing_line) = if layout == "two-files" {
+                std::fs::write(top.join("lib/checks.ds"), "# checks built on the helpers\n\nfn is_ready\n    state = probe\n    return ${state}\nend\n").expect("write");
+                std::fs::write(top.join("lib/io/probe.ds"), "# low level helper\n\nfn probe\n    calls = calc ${calls} + 1\n    # planted error: line 6 of this file\n    trigger_error \"probe failed\"\n    return true\nend\n").expect("write");
+                std::fs::write(top.join("main.ds"), format!("calls = set 0\n!include_files ./lib/checks.ds ./lib/io/probe.ds\ntrigger_error \"in main\"\n{}\nmsg = get_last_error\nsrc = get_last_error_source\nline = get_last_error_line\nafter = set reached\n", call)).expect("write");
+                (top.join("lib/io/probe.ds"), "6")
+            } else {
+                std::fs::write(top.join("lib/io/probe.ds"), "calls = calc ${calls} + 1\n\ntrigger_error \"probe failed\"\n").expect("write");
+                std::fs::write(top.join("main.ds"), format!("calls = set 0\nfn is_ready\n    !include_files ./lib/io/probe.ds\n    return true\nend\ntrigger_error \"in main\"\n{}\nmsg = get_last_error\nsrc = get_last_error_source\nline = get_last_error_line\nafter = set reached\n", call)).expect("write");
+                (top.join("lib/io/probe.ds"), "3")
+            };
+            let (env, _o, _e, _h) = quiet_env();
+            let root = top.join("main.ds").to_string_lossy().to_string();
+            match guarded(|| duckscript::runner::run_script_file(&root, sdk_context(), Some(env))) {
+                Err(p) => w.fail("errors-name-their-file:panic", &p, cj),
+                Ok(Err(e)) => w.fail("errors-name-their-file:run-failed", &format!("{} / {}: {}", fname, layout, e), cj),
+                Ok(Ok(c)) => {
+                    let v = |k: &str| c.variables.get(k).cloned().unwrap_or_default();
+                    if v("after") != "reached" || v("calls") != "1" || v("msg") != "probe failed" {
+                        w.fail("errors-name-their-file:flow", &format!("{} / {}: after={:?} calls={:?} message={:?}", fname, layout, v("after"), v("calls"), v("msg")), cj);
+                    } else if !same_file(&v("src"), &failing_file) {
+                        w.fail("errors-name-their-file:wrong-file", &format!("{} / {}: get_last_error_source {:?}, the failing line is in {:?}", fname, layout, v("src"), failing_file), cj);
+                    } else if v("line") != failing_line {
+                        w.fail("errors-name-their-file:wrong-line", &format!("{} / {}: get_last_error_line {:?}, the failing line is line {}", fname, layout, v("line"), failing_line), cj);
+                    } else {
+                        w.pass(true, hash64(&("errors-name-their-file", fname, layout)));
+                    }
+                }
+            }
+        }
+    }
+    let _ = std::fs::remove_dir_all(&top);
+}
+
 pub fn worker(w: &mut Worker) {
     let tier = w.tier;
     scale(w);
     parse_time_output(w);
+    errors_name_their_file(w);
     blocks_across_files(w);
     relative_invocation(w);
     let rig = Rig::new();
@@ -964,7 +1022,7 @@ pub fn crash_sig(_case: &Value, kind: &str) -> String {
     kind.to_string()
 }
 
-pub const RULE: &str = "include structures: four files r.ds, d1/a.ds, d1/d2/b.ds, c.ds; every assignment of an include directive (none / one file / two files / the same file twice, listed in one directive, at the first, middle or last line) to each file such that a file only includes files later in the order (two orders: descending into and climbing out of the nested directories), unreachable files normalised away, x path style {./relative, plain relative, absolute}. Faults (on every n-th structure): each include edge pointing to a missing file; a malformed line at every (reachable file, line); a trigger_error at every (reachable file, line); two handled errors in different files (the later one is the last error: its line and its file); pairs of faults (a missing edge or a malformed line in an included file together with a malformed last line of the root file: the one that comes first in the pasted text must be reported). Oracle: parse_file(root) minus directive instructions equals parse_text of the recursively pasted text; every instruction carries the file it came from (compared as canonical paths) and its line in that file; running the file and the pasted text gives the same emit trace and variables; a missing file fails the parse with ErrorReadingFile naming that file; a malformed line fails with its kind, its own line and its own file; get_last_error_line/_source name the included file and line. Scale cases: a chain of 12/40 (thorough 150) files each including the next across two directories, a chain through files whose names differ only in letter case, one directive listing 12/100 (thorough 1000) files, an included file of 5000 (thorough 200000) lines: instruction order, file and line of every instruction. Parse-time output: 8 include shapes with !print lines (a file included once, twice on two lines, twice on one line, three times, a diamond, a nested file twice, prints only below, another file between) x relative / absolute paths, run in a child process against the pasted text run in a child process: same exit status, same standard output. Blocks across files: 11 shapes (if / while / for / fn / nested blocks opened in one file and closed in another, the directive last in its file or not, else in an included file) x relative / absolute paths: final variables of the include structure equal those of the pasted text. Six more shapes: a file defining a function / a scoped function / an alias / a label included twice (two lines, one line, a diamond). Seven shapes with files that hold nothing (zero bytes), a blank or only a comment, first / between / last in a directive and in a nested directive. Relative invocation: 12 cases of (working directory, relative path of the root, includes that climb up to three levels above it), with files of the same name and other contents on the way: the file the directive names is the one that is read Revisit: 2..300 (thorough 1025) files included by relative path one directive after the other, then again forwards, backwards, every third one, and pairwise from a file in the other directory under another spelling of the path.";
+pub const RULE: &str = "include structures: four files r.ds, d1/a.ds, d1/d2/b.ds, c.ds; every assignment of an include directive (none / one file / two files / the same file twice, listed in one directive, at the first, middle or last line) to each file such that a file only includes files later in the order (two orders: descending into and climbing out of the nested directories), unreachable files normalised away, x path style {./relative, plain relative, absolute}. Faults (on every n-th structure): each include edge pointing to a missing file; a malformed line at every (reachable file, line); a trigger_error at every (reachable file, line); two handled errors in different files (the later one is the last error: its line and its file); pairs of faults (a missing edge or a malformed line in an included file together with a malformed last line of the root file: the one that comes first in the pasted text must be reported). Oracle: parse_file(root) minus directive instructions equals parse_text of the recursively pasted text; every instruction carries the file it came from (compared as canonical paths) and its line in that file; running the file and the pasted text gives the same emit trace and variables; a missing file fails the parse with ErrorReadingFile naming that file; a malformed line fails with its kind, its own line and its own file; get_last_error_line/_source name the included file and line. Scale cases: a chain of 12/40 (thorough 150) files each including the next across two directories, a chain through files whose names differ only in letter case, one directive listing 12/100 (thorough 1000) files, an included file of 5000 (thorough 200000) lines: instruction order, file and line of every instruction. Parse-time output: 8 include shapes with !print lines (a file included once, twice on two lines, twice on one line, three times, a diamond, a nested file twice, prints only below, another file between) x relative / absolute paths, run in a child process against the pasted text run in a child process: same exit status, same standard output. Blocks across files: 11 shapes (if / while / for / fn / nested blocks opened in one file and closed in another, the directive last in its file or not, else in an included file) x relative / absolute paths: final variables of the include structure equal those of the pasted text. Six more shapes: a file defining a function / a scoped function / an alias / a label included twice (two lines, one line, a diamond). Seven shapes with files that hold nothing (zero bytes), a blank or only a comment, first / between / last in a directive and in a nested directive. Relative invocation: 12 cases of (working directory, relative path of the root, includes that climb up to three levels above it), with files of the same name and other contents on the way: the file the directive names is the one that is read Revisit: 2..300 (thorough 1025) files included by relative path one directive after the other, then again forwards, backwards, every third one, and pairwise from a file in the other directory under another spelling of the path. Errors name their file: a function of one included file calls a function of another included file whose line 6 reports an error (and: a function whose body holds an include directive, the error on line 3 of the included file), called as a plain line, for its value, as the condition of if / elseif / while and under not: get_last_error_source is the file the failing line is in, get_last_error_line its line there, the run goes on.";
 pub const ASSUMPTIONS: &[&str] = &["cyclic includes are outside the property (C07 probes them)", "the scratch directory is on a local file system without symlinks"];
 pub const EXHAUSTIVE: bool = true;
 pub const WALL_CAP_S: (u64, u64) = (55, 1500);
